@@ -125,7 +125,7 @@ func replaySrvLines(lines []string) (srvTrace, error) {
 			out.lines, out.want = append(out.lines, w.trace...), append(out.want, w.traceWant...)
 			w.trace, w.traceWant = nil, nil
 		case "dump":
-			out.lines, out.want = append(out.lines, "srv dump"), append(out.want, fs.Dump(true))
+			out.lines, out.want = append(out.lines, "srv dump"), append(out.want, fs.DumpHex())
 		}
 	}
 	return out, nil
